@@ -218,6 +218,7 @@ type group struct {
 	Name      string
 	IsIP      bool
 	Spellings []spelling
+	Edge      bool // audit extension group (edgeGroups): every case also performs the real handshakes
 }
 
 var labelPool = []string{"a", "ab-c", "A", "ExAmPle", strings.Repeat("k", 31) + "-" + strings.Repeat("Z", 31), "xn--bcher-kva"}
@@ -271,7 +272,8 @@ func groups(maxLabels int) []group {
 			spelling{"[" + ip + "]:8443", "ipv6_bracket_port"}, spelling{"[" + ip + "]", "ipv6_bracket_noport"})
 		out = append(out, g)
 	}
-	return out
+	// audit extension: edge spellings, appended last so that the indexes (sharding, handshake subset) of the groups above are unchanged
+	return append(out, edgeGroups()...)
 }
 
 const (
@@ -422,9 +424,22 @@ func inputsPart(out *shardOut, envs []*env, gs []group, shard, nshards int, hsEv
 				}
 				// real handshake for a deterministic subset (first environment only)
 				// (a case already flagged by the callback-level oracle is not reported a second time under a handshake signature)
-				if ei == 0 && len(out.Violations) == nviol && (g.IsIP || g.Name == "" || gi%hsEvery == 0) {
+				if ei == 0 && len(out.Violations) == nviol && (g.IsIP || g.Name == "" || g.Edge || gi%hsEvery == 0) {
 					out.Counters["handshakes"]++
-					res := handshake(e, tc, sni, want, wantIP)
+					res := handshake(e, tc, sni, want, wantIP, 0)
+					if res == "" && source != "none" {
+						// audit extension: the same server config must also complete a handshake with a client that stops at TLS 1.2
+						out.Counters["handshakes"]++
+						out.Counters["handshakes_tls12"]++
+						if res12 := handshake(e, tc, sni, want, wantIP, tls.VersionTLS12); res12 != "" {
+							sym := "failed"
+							if strings.HasPrefix(res12, "panic") {
+								sym = "panic"
+							}
+							// (host independent: the TLS 1.3 handshake of the very same case completed)
+							out.violate("handshake_tls12:"+sym, scen+": real TLS handshake with a TLS 1.2 client (the TLS 1.3 one completed): "+res12, replay)
+						}
+					}
 					switch {
 					case source == "none" && res == "":
 						out.violate("handshake:"+strings.ToLower(c.Entry)+"_no_sni_no_host:completed", scen+": TLS handshake completed although no name was available", replay)
@@ -447,14 +462,14 @@ func inputsPart(out *shardOut, envs []*env, gs []group, shard, nshards int, hsEv
 }
 
 // handshake runs a real crypto/tls handshake over an in-memory pipe. Returns "" when it completed.
-func handshake(e *env, srv *tls.Config, sni, want string, wantIP bool) string {
+func handshake(e *env, srv *tls.Config, sni, want string, wantIP bool, maxVer uint16) string {
 	cc, sc := net.Pipe()
 	defer cc.Close()
 	defer sc.Close()
 	dl := time.Now().Add(30 * time.Second) // hang guard only
 	cc.SetDeadline(dl)
 	sc.SetDeadline(dl)
-	ccfg := &tls.Config{RootCAs: e.roots}
+	ccfg := &tls.Config{RootCAs: e.roots, MaxVersion: maxVer}
 	switch {
 	case sni != "":
 		ccfg.ServerName = sni
@@ -568,7 +583,12 @@ type history struct {
 	PrimeA   int   // index into shiftKinds, -1 = not primed
 	PrimeB   int   // same for B
 	Seq      []int // requests at offset 0: 0 = A, 1 = A with port, 2 = B
+	// Via (audit extension): how the requests at offset 0 name the host. 0 = CONNECT authority (TLSForHost(host), no SNI);
+	// 1 = SNI on a TLS() config; 2 = SNI overriding the fallback host of TLSForHost(another host). Priming is always via 0.
+	Via int `json:",omitempty"`
 }
+
+var viaNames = []string{"fallback", "sni_tls", "sni_over_fallback"}
 
 func (h history) String() string {
 	pk := func(i int) string {
@@ -582,7 +602,11 @@ func (h history) String() string {
 	for _, v := range h.Seq {
 		s = append(s, sym[v])
 	}
-	return fmt.Sprintf("class=%s V=%s eps=%s issueA@%s issueB@%s then@now %v", hostClasses[h.Class], h.Validity, h.Eps, pk(h.PrimeA), pk(h.PrimeB), s)
+	via := ""
+	if h.Via != 0 {
+		via = " via=" + viaNames[h.Via]
+	}
+	return fmt.Sprintf("class=%s V=%s eps=%s issueA@%s issueB@%s then@now %v%s", hostClasses[h.Class], h.Validity, h.Eps, pk(h.PrimeA), pk(h.PrimeB), s, via)
 }
 
 type vparam struct{ V, Eps time.Duration }
@@ -609,7 +633,9 @@ func histories(tier string) []history {
 			}
 		}
 	}
-	return out
+	// audit extension (appended, the indexes of the histories above are unchanged): the same histories with the
+	// requests at offset 0 arriving through the other two ways a client can name a host, and a non-default validity in quick
+	return append(out, auditHistories(tier)...)
 }
 
 type mentry struct {
@@ -666,10 +692,27 @@ func runHistory(out *shardOut, e *env, h history, u int, states map[string]bool)
 					dontCare = true
 				}
 			}
-			tlsc, err, pan := getCert(e.cfg.TLSForHost(spell[idx]), "")
+			via := h.Via
+			if shift != 0 || strings.HasPrefix(phase, "issue-") {
+				via = 0
+			}
+			var tlsc *tls.Certificate
+			var err error
+			var pan string
+			switch via {
+			case 1:
+				tlsc, err, pan = getCert(e.cfg.TLS(), spell[idx])
+			case 2:
+				tlsc, err, pan = getCert(e.cfg.TLSForHost(fmt.Sprintf("other%d.via.example:443", u)), spell[idx])
+			default:
+				tlsc, err, pan = getCert(e.cfg.TLSForHost(spell[idx]), "")
+			}
 			steps++
 			scen := fmt.Sprintf("%s: request %q at %s (cached entry: %s)", h, spell[idx], phase, kind)
 			pfx := "expiry:" + kind + ":"
+			if h.Via != 0 {
+				pfx = "expiry_" + viaNames[h.Via] + ":" + kind + ":"
+			}
 			switch {
 			case pan != "":
 				viols = append(viols, viol{pfx + "panic", scen + ": panic: " + pan})
@@ -682,7 +725,15 @@ func runHistory(out *shardOut, e *env, h history, u int, states map[string]bool)
 			if sym == "not_valid_at_time" {
 				viols = append(viols, viol{pfx + sym, scen + ": " + detail})
 			} else if sym != "" {
-				viols = append(viols, viol{certSig(spClass[idx], "fallback", sym), scen + ": " + detail})
+				if via != 0 {
+					if cs := certSig("", "", sym); strings.HasPrefix(cs, "cert:") {
+						viols = append(viols, viol{cs, scen + ": " + detail})
+					} else {
+						viols = append(viols, viol{"expiry_" + viaNames[h.Via] + ":issued:" + sym, scen + ": " + detail})
+					}
+				} else {
+					viols = append(viols, viol{certSig(spClass[idx], "fallback", sym), scen + ": " + detail})
+				}
 			}
 			issuedAt, known := returned[tlsc]
 			switch {
@@ -736,6 +787,9 @@ func runHistory(out *shardOut, e *env, h history, u int, states map[string]bool)
 	}
 	r := vrt.Run(vrt.Config{}, nil, body)
 	out.Counters["expiry_histories"]++
+	if h.Via != 0 {
+		out.Counters["expiry_histories_via_sni"]++
+	}
 	out.Counters["expiry_steps"] += int64(steps)
 	out.Counters["expiry_fresh"] += int64(fresh)
 	out.Counters["expiry_reused"] += int64(reused)
@@ -860,6 +914,21 @@ func scenarios(tier string) []scenario {
 					for _, z := range p1[i:] {
 						out = append(out, scenario{0, p.a, p.b, [][]int{x, y, z}})
 					}
+				}
+			}
+		}
+	}
+	// audit extension (appended, indexes above unchanged): the host classes the tiers above never run concurrently
+	// (quick: everything but dns; thorough: mixed-case DNS and IPv4), two threads on an empty cache and on an expired A
+	xcl, xprog := []int{1, 2, 3}, p1
+	if tier == "thorough" {
+		xcl, xprog = []int{1, 2}, p2
+	}
+	for _, cl := range xcl {
+		for _, p := range []pr{{0, 0}, {2, 0}} {
+			for i, x := range xprog {
+				for _, y := range xprog[i:] {
+					out = append(out, scenario{cl, p.a, p.b, [][]int{x, y}})
 				}
 			}
 		}
@@ -1109,6 +1178,7 @@ func main() {
 	gs := groups(maxLabels)
 	hs := histories(tier)
 	scen := scenarios(tier)
+	rh, sh, fh := reuseHistories(tier), setterHistories(tier), faultHistories(tier)
 	if i, n := lib.ShardEnv(); n > 0 {
 		out := &shardOut{Counters: map[string]int64{}}
 		var envs []*env
@@ -1121,18 +1191,45 @@ func main() {
 		}
 		ec := newECEnv("Verif EC Org")
 		envs = append(envs, ec)
+		t0 := time.Now()
+		lap := func(what string) {
+			if os.Getenv("C06_DEBUG") != "" {
+				fmt.Fprintf(os.Stderr, "shard %d: %s done after %.1fs\n", i, what, time.Since(t0).Seconds())
+			}
+		}
 		inputsPart(out, envs, gs, i, n, hsEvery)
+		lap("inputs")
 		expiryPart(out, envs[0], hs, i, n)
+		lap("expiry")
+		// audit extensions (parts 4-6)
+		reusePart(out, envs[0], rh, i, n, 8)
+		if tier == "thorough" {
+			reusePart(out, ec, rh, i, n, 8)
+		}
+		lap("reuse")
+		settersPart(out, newEnv(ec.kind, ec.ca, ec.capriv, ""), sh, i, n)
+		lap("setters")
+		signerFaultPart(out, ec, fh, i, n)
+		lap("signer faults")
 		dl := time.Now().Add(40 * time.Second)
 		if tier == "thorough" {
 			dl = time.Now().Add(11 * time.Minute)
 		}
 		concPart(out, ec, scen, i, n, dl)
+		lap("conc")
 		b, _ := json.Marshal(out)
 		os.WriteFile(os.Getenv("VERIF_SHARD_OUT"), b, 0o644)
 		return
 	}
 	rep := lib.NewReport("C06", "model_checking")
+	// auxiliary race pass: the same kind of thread bodies free-running on the unrewritten tree under -race
+	// (started first: it runs while the shards do the exhaustive parts)
+	raceIters := "8"
+	if tier == "thorough" {
+		raceIters = "200"
+	}
+	raceCh := make(chan lib.RaceResult, 1)
+	go func() { raceCh <- lib.RacePass("c06", "racebodies", "c06", raceIters) }()
 	files, errs, outs := lib.RunShards(nShards, lib.Root+"/.build/c06/shards")
 	sets := map[string]map[string]bool{}
 	var allViol []lib.Violation
@@ -1196,37 +1293,46 @@ func main() {
 	rep.Coverage["host_spellings"] = nsp
 	rep.Coverage["distinct_requested_names"] = len(sets["names"])
 	rep.Coverage["expiry_model_states"] = es
-	rep.Coverage["states"] = int64(len(sets["names"])+len(es)) + rep.Counter("conc_distinct_outcome_logs")
-	rep.Coverage["transitions"] = rep.Counter("getcertificate_calls") + rep.Counter("handshakes") + rep.Counter("expiry_steps") + rep.Counter("conc_points")
-	rep.Coverage["traces_validated_against_impl"] = rep.Counter("input_cases") + rep.Counter("expiry_histories") + rep.Counter("conc_executions")
-	rep.Coverage["evaluations"] = rep.Counter("input_cases") + rep.Counter("handshakes") + rep.Counter("expiry_steps") + rep.Counter("conc_executions")
-	rep.Coverage["distinct_nontrivial"] = int64(len(sets["nontrivial"])) + rep.Counter("expiry_histories_with_invalid_cached_entry") + rep.Counter("conc_scenarios_with_schedule_dependent_outcome")
+	auditSteps := rep.Counter("reuse_steps") + rep.Counter("reuse_handshakes") + rep.Counter("setter_steps") + rep.Counter("signer_fault_steps")
+	auditHist := rep.Counter("reuse_histories") + rep.Counter("setter_histories") + rep.Counter("signer_fault_histories")
+	rep.Coverage["reuse_config_states"] = len(sets["reuse_states"])
+	rep.Coverage["states"] = int64(len(sets["names"])+len(es)+len(sets["reuse_states"])) + rep.Counter("conc_distinct_outcome_logs")
+	rep.Coverage["transitions"] = rep.Counter("getcertificate_calls") + rep.Counter("handshakes") + rep.Counter("expiry_steps") + rep.Counter("conc_points") + auditSteps
+	rep.Coverage["traces_validated_against_impl"] = rep.Counter("input_cases") + rep.Counter("expiry_histories") + rep.Counter("conc_executions") + auditHist
+	rep.Coverage["evaluations"] = rep.Counter("input_cases") + rep.Counter("handshakes") + rep.Counter("expiry_steps") + rep.Counter("conc_executions") + auditSteps
+	rep.Coverage["distinct_nontrivial"] = int64(len(sets["nontrivial"])) + rep.Counter("expiry_histories_with_invalid_cached_entry") + rep.Counter("conc_scenarios_with_schedule_dependent_outcome") +
+		rep.Counter("reuse_histories_with_two_answers") + rep.Counter("setter_fresh_after_a_change") + rep.Counter("signer_fault_histories_with_a_failed_signature")
 	rep.Coverage["rule"] = "inputs: every (host spelling x SNI mode x entry point) of the pool, per CA environment, variant order rotated per environment so that every variant class meets a cold cache; " +
 		"non-trivial = the expected answer is not 'issue for the plain lower-case DNS fallback host as given' (port or brackets to strip, IP SAN, upper-case letters, SNI overriding the fallback, or refusal under TLSForHost). " +
 		"expiry: every (class, validity, issue shift of A, issue shift of B, request sequence) history; non-trivial = a cached entry is invalid (expired / not yet valid) when requested. " +
-		"schedules: every interleaving of every scenario; non-trivial = scenarios whose observable outcome depends on the schedule."
+		"schedules: every interleaving of every scenario; non-trivial = scenarios whose observable outcome depends on the schedule. " +
+		"reuse: every (config kind, hello sequence) with ONE tls.Config answering all hellos; non-trivial = the config had to give two different answers (two names, or a name and a refusal). " +
+		"setters: every operation sequence over {SetOrganization x2, SetValidity x2, request new, request first again} ending in a request; non-trivial = a fresh certificate issued after a setter changed a value. " +
+		"signer faults: every (request sequence, set of failing CA signatures); non-trivial = a signature actually failed."
 	rep.Coverage["exhaustive"] = rep.Incomplete == ""
 	rep.Coverage["bounds"] = fmt.Sprintf("inputs: label pool %d labels, 1..%d labels per name (<=253 chars), %d IPv4 + %d IPv6 literals, ports {none,:443,:8443}, IPv6 bare/[x]:port/[x], empty host, SNI {absent,equal,different}, entry {TLSForHost,TLS}, %d RSA-CA configs + 1 ECDSA-CA config, real handshake for every IP/empty group and every %d-th name; "+
 		"expiry: %d histories = classes %v x (V,eps) x issue shifts {none,0,V-eps,V+eps,2V,-(V-eps),-(V+eps)}^2 x request sequences of length 1..%d over {A,A:port,B}; "+
 		"schedules: %d scenarios (2-3 threads, 1-2 requests each over {A,A:port,B via SNI}, cache of A in {none,valid,expired}, of B in {none,expired}), all interleavings (no bound)",
-		len(labelPool), maxLabels, len(ipv4Pool), len(ipv6Pool), nRSA, hsEvery, len(hs), hostClasses, map[string]int{"quick": 3, "thorough": 4}[tier], len(scen))
+		len(labelPool), maxLabels, len(ipv4Pool), len(ipv6Pool), nRSA, hsEvery, len(hs), hostClasses, map[string]int{"quick": 3, "thorough": 4}[tier], len(scen)) +
+		fmt.Sprintf("; audit extensions: %d edge-spelling groups (empty/0/80/65535 ports, 253-char name, digit labels, trailing dot, port-like IPv6 groups) with TLS 1.3 and TLS 1.2 handshakes; "+
+			"%d of the expiry histories request via SNI (TLS() / SNI over a fallback) or use validity 10m; "+
+			"reuse: %d histories = %d config kinds %v x hello sequences of length 1..%d over %v, real handshakes on the reused config for every 8th; "+
+			"setters: %d histories of length <=%d; signer faults: %d histories (sequences of length 1..%d over {A,B(ip),A:port} x all failure masks); "+
+			"schedules: the scenario count includes two-thread scenarios (empty cache / expired A) for the host classes the original list never ran concurrently (quick: dns_mixed_case, ipv4, ipv6; thorough: dns_mixed_case, ipv4)",
+			len(edgeGroups()), len(auditHistories(tier)), len(rh), len(reuseKinds), reuseKinds, map[string]int{"quick": 3, "thorough": 4}[tier], helloClasses,
+			len(sh), map[string]int{"quick": 4, "thorough": 5}[tier], len(fh), map[string]int{"quick": 3, "thorough": 4}[tier])
 	rep.Assumptions = []string{
 		"time is moved at issuance (clock origin shifted by -d, then requests at shift 0): translation invariance in time is assumed, because x509's re-verification inside mitm uses the real clock",
 		"margins eps >= 20 s around the validity boundary; a history that takes longer than eps/2 of wall clock is discarded and reported as incomplete",
 		"fresh cache state per history/execution is obtained with host names never used before on the same Config (a new Config costs an RSA key generation)",
-		"scheduling points are the cache lock operations; unsynchronised accesses are not interleaved (no race pass)",
+		"scheduling points are the cache lock operations; unsynchronised accesses are not interleaved by the scheduler (the free-running -race pass samples them)",
+		"SNI values carrying an IP literal, a port or brackets are counted as hosts a client may name via SNI (the statement's product); Go's own client cannot send them, so those hellos are judged at the GetCertificate callback only",
+		"after SetOrganization a still valid cached certificate may keep the organization it was issued with (not judged); every fresh certificate must carry the organization and the +-validity window configured at its issuance",
+		"a request during which the CA signer failed may be refused; any certificate handed out must still be a good one, and later requests must succeed",
 		"only Go's crypto/tls client and x509 verifier; part 3 uses a harness-built ECDSA P-256 CA (cheap signatures), parts 1-2 the RSA CA of mitm.NewAuthority",
 		"bracketed IPv6 without port ([::1]) is counted as a host spelling a client may name (URL host form); reported under its own signature",
 	}
-	// auxiliary race pass: the same kind of thread bodies free-running on the unrewritten tree under -race
-	raceIters := "30"
-	if lib.Tier() == "thorough" {
-		raceIters = "300"
-	}
-	if raceIters == "30" {
-		raceIters = "8"
-	}
-	rep.ReportRaces(lib.RacePass("c06", "racebodies", "c06", raceIters))
+	rep.ReportRaces(<-raceCh)
 	rep.Finish()
 }
 
